@@ -623,6 +623,52 @@ func runC16(p *Program, r *Result) {
 		checkCanonicalParse(p, r, pf, rsf, ivf, df)
 	}
 
+	r.Rule("R16.9", "a conversation leaves nothing behind: Wrap/WrapWithLabels/Unwrap store into no field of plugin.Recipient, plugin.Identity or plugin.ClientUI, so every call talks to its own process through its own reader, whatever an earlier call ended with", 3)
+	for _, m := range [][2]string{{"Recipient", "Wrap"}, {"Recipient", "WrapWithLabels"}, {"Identity", "Unwrap"}} {
+		fn := r.prog.Func(pkgPlugin, m[0], m[1])
+		if fn == nil {
+			continue // Wrap may be absent in variants; the anchors of R16.1 report a missing machine
+		}
+		r.Saw(fn.String())
+		var hit []string
+		if e := p.EffectsOf(fn); e != nil {
+			for f := range e.AllFields {
+				for _, t := range []string{"Recipient", "Identity", "ClientUI"} {
+					if strings.HasPrefix(f, pkgPlugin+"."+t+".") {
+						hit = append(hit, short(f))
+					}
+				}
+			}
+		}
+		sort.Strings(hit)
+		r.Check(len(hit) == 0, fn.String(), "receiver-state", "", "no field of the client's values is written", "the call stores into "+strings.Join(hit, ", ")+": state kept from one conversation to the next (a reader with a latched error, buffered bytes of the previous process, a flag) makes the result of a call depend on earlier calls, and two goroutines using one value share it")
+	}
+	r.Rule("R16.10", "the end of the plugin's output reaches the client as it happens: the client reads the process's pipe synchronously, with no goroutine and no io.Pipe in between (a relay that does not pass a clean end of output on turns a plugin that stopped into a hang)", 1)
+	{
+		n := 0
+		for _, fn := range p.Funcs {
+			if fn.Pkg == nil || fn.Pkg.Pkg.Path() != pkgPlugin {
+				continue
+			}
+			for _, b := range fn.Blocks {
+				for _, in := range b.Instrs {
+					switch x := in.(type) {
+					case *ssa.Go:
+						n++
+						r.Bad(fn.String(), "relay:go:"+short(calleeName(x.Common())), r.pos(in), "a goroutine is started in the plugin client: what the stanza reader sees of the plugin's output (its end included) then depends on that goroutine passing it on")
+					case *ssa.Call:
+						if calleeName(x.Common()) == "io.Pipe" {
+							n++
+							r.Bad(fn.String(), "relay:io.Pipe", r.pos(in), "an in-process pipe stands between the plugin and the client: its write end has to be closed on every way the copying side can end, a clean end of the plugin's output included, or the client waits for ever")
+						}
+					}
+				}
+			}
+		}
+		if n == 0 {
+			r.OK(pkgPlugin, "relay:none", "", "no go statement and no io.Pipe in the package")
+		}
+	}
 	r.Rule("R16.8", "the stanza reader the client listens through passes over no line (= R07.6)", 1)
 	checkNoLineDiscarded(p, r)
 	r.Rule("R16.7", "replies reach the plugin when they are written: no buffered writer stands between the client and the plugin's stdin (a reply held back in a buffer is never sent when the conversation ends with it)", 1)
